@@ -112,3 +112,75 @@ func ZZ_C16_ReconnectCensus() {
 	}
 	verifCover("done")
 }
+
+// Several goroutines use the reconnecting client at once. Two calls are in
+// flight on the same connection when it dies; their failures are handled one
+// after the other, with another call (which reconnects) before, between or
+// after them. However the failures and the reconnect interleave, a late
+// failure report about the OLD connection never disturbs the NEW one: at most
+// one socket is open at every quiescent point, later calls reuse the new
+// connection, and after Close nothing is left open.
+//
+//verif:harness kind=api replay=interp unwind=64 preempt=1 bound=2-calls-in-flight,1-reconnecting-call-at-any-of-3-positions,one-preemption
+func ZZ_C16_ConcurrentCallers() {
+	zzServer.header = http.Header{"Hysteria-Udp": []string{"false"}}
+	zzServer.status = 233
+	f := &zzFactory{}
+	configCalls := 0
+	rc, err := NewReconnectableClient(func() (*Config, error) {
+		configCalls++
+		return &Config{ConnFactory: f, ServerAddr: zzNetAddr{"198.51.100.1:443"}, FastOpen: true}, nil
+	}, nil, false)
+	verifAssert(err == nil && configCalls == 1 && len(zzConnList) == 1, "eager start connects once")
+	first := zzConn(zzConnList[0])
+	first.gate = make(chan struct{})
+	errs := make([]error, 2)
+	done := make(chan int, 2)
+	for i := 0; i < 2; i++ {
+		i := i
+		go func() {
+			_, errs[i] = rc.TCP("example.com:80")
+			done <- i
+		}()
+	}
+	verifQuiesce()
+	verifAssert(first.waiting == 2, "both calls are in flight on the first connection")
+	// the connection dies
+	first.streamErr = errors.New("connection lost")
+	pos := verifChoice("reconnectingCallAt", 3)
+	reconnecting := func() {
+		_, err := rc.TCP("example.com:80")
+		verifAssert(err == nil, "a call after the loss succeeds on a new connection")
+		verifAssert(f.open() <= 1, "at most one transport socket is open (the dead one was closed)")
+	}
+	if pos == 0 {
+		// nobody has noticed yet: the call goes to the dying connection like the others
+		verifCover("before-both")
+	}
+	first.gate <- struct{}{} // the first failure is reported
+	verifQuiesce()
+	if pos == 1 {
+		reconnecting()
+		verifCover("between")
+	}
+	first.gate <- struct{}{} // the second, late, failure report
+	verifQuiesce()
+	<-done
+	<-done
+	verifAssert(zzIsClosed(errs[0]) && zzIsClosed(errs[1]), "both calls in flight report the closed connection")
+	if pos == 2 {
+		reconnecting()
+		verifCover("after-both")
+	}
+	before := configCalls
+	_, err = rc.TCP("example.com:80")
+	if pos == 0 {
+		verifAssert(err == nil && configCalls == before+1, "the next call reconnects")
+	} else {
+		verifAssert(err == nil && configCalls == before, "the connection built after the loss is still in use: a late failure report does not drop it")
+	}
+	verifAssert(f.open() == 1, "exactly one transport socket is open")
+	verifAssert(rc.Close() == nil, "Close succeeds")
+	verifAssert(f.open() == 0, "after Close every socket ever opened is closed")
+	verifCover("done")
+}
